@@ -349,6 +349,10 @@ func init() {
 						}
 					case string:
 						sid, ok := sidOf(v, nstr)
+						if a.isReal && ok && a.f == float64(sid) {
+							// a real operand holding an exact string id is accepted
+							break
+						}
 						if a.isReal || !ok || int64(sid) != a.i {
 							res.fail, res.sig = "string operand differs from the specification reader", "c13-dict-decode-differs"
 						}
